@@ -1,5 +1,5 @@
 (* C04 property theorems: statements + `exact lemma` only. *)
-From CJ Require Import Common.Base C04.Model C04.Proofs C04.ProofsT C04.ProofsPaced C04.ProofsHyp.
+From CJ Require Import Common.Base C04.Model C04.Proofs C04.ProofsT C04.ProofsPaced C04.ProofsHyp C04.ProofsPad.
 Local Open Scope nat_scope.
 
 (* For every registered client, every enabled wrapping transport t, every way the bytes
@@ -82,3 +82,37 @@ Theorem C04_any_station_key_position :
     first_reg (pre ++ id :: post) R = Some r.
 Proof. exact first_reg_any_position. Qed.
 Print Assumptions C04_any_station_key_position.
+
+(* Fifth round.  obfs4: the client pads its handshake X' | P_C | M_C | MAC with a uniformly drawn number of
+   bytes between ClientMinPadLength and ClientMaxPadLength.  For EVERY such length the flight has an
+   admissible length and the station's search (findMarkMac from the tail, mark searched up to
+   MaxHandshakeLength = obfs4_max_handshake) finds the mark - in particular for the longest flights. *)
+Theorem C04_obfs4_every_padding_length :
+  forall rep pad m mac : bytes,
+    length rep = 32%nat -> length m = obfs4_mark_len -> length mac = obfs4_mac_len ->
+    (obfs4_min_pad <= length pad <= obfs4_max_pad)%nat ->
+    (obfs4_min_handshake <= length (obfs4_flight rep pad m mac) <= obfs4_max_handshake)%nat /\
+    mark_at_tail m (obfs4_flight rep pad m mac) = true.
+Proof. exact every_padding_length_recognised. Qed.
+Print Assumptions C04_obfs4_every_padding_length.
+
+(* ... hence WrapConnection answers "found, the whole flight consumed" for the registration whose mark
+   the flight carries, whatever the padding length (single candidate: collisions are `unambiguous`'s business) *)
+Theorem C04_obfs4_every_padding_wrapped :
+  forall mark hs_ok (r : reginfo) (rep pad mac : bytes),
+    length rep = 32%nat -> length (mark r rep) = obfs4_mark_len -> length mac = obfs4_mac_len ->
+    (obfs4_min_pad <= length pad <= obfs4_max_pad)%nat ->
+    obfs4_candidate r = true ->
+    let fl := obfs4_flight rep pad (mark r rep) mac in
+    hs_ok r fl = true ->
+    wrap_obfs4 mark hs_ok [r] fl = WFound r (length fl).
+Proof. exact every_padding_length_wrapped. Qed.
+Print Assumptions C04_obfs4_every_padding_wrapped.
+
+(* The handler's first step, getRemoteAsIP on the accepted socket's address object: every peer whose
+   address is an IP address (4 or 16 bytes in a TCP/UDP address object, zone or not; or a printed form
+   that parses) reaches the classification loop `k` (to which the theorems above apply unchanged). *)
+Theorem C04_every_ip_peer_served :
+  forall (A : Type) (p : peer_addr) (k : A), is_ip_peer p = true -> handle_from p k = Some k.
+Proof. exact @every_ip_peer_is_served. Qed.
+Print Assumptions C04_every_ip_peer_served.
